@@ -78,6 +78,27 @@ func GenPMT(r *gen.Rand, nStreams int) PMT {
 		}
 		p.Streams = append(p.Streams, ES{Type: genStreamTypes[r.Intn(len(genStreamTypes))], PID: pid, Descs: GenDescs(r, maxd)})
 	}
+	if nStreams < 0 && n >= 1 && n <= 8 && r.Chance(30) {
+		// one stream with 255 .. 450 descriptors (empty or one byte long): ES_info_length has room for about 500
+		k := r.PickInt([]int{255, 256, 257, 300, 400, 256 + r.Intn(195)})
+		var ds []Desc
+		for j := 0; j < k; j++ {
+			d := Desc{Tag: r.PickByte([]byte{0xe9, 0xcc, 0x97, 0xfe, 0x81})}
+			if r.Chance(8) && k < 330 {
+				d.Body = []byte{r.Byte()}
+			}
+			ds = append(ds, d)
+		}
+		if len(p.Streams) > 2 {
+			p.Streams = p.Streams[:2]
+		}
+		p.ProgDescs = nil
+		for j := range p.Streams {
+			p.Streams[j].Descs = nil
+		}
+		p.Streams[r.Intn(len(p.Streams))].Descs = ds
+		return p
+	}
 	if nStreams < 0 && r.Chance(25) {
 		// a section at (or within a few bytes of) the 1021-byte section_length limit
 		for len(p.Section()) < 1024 {
